@@ -59,6 +59,7 @@ typedef struct world {
 	msg_rec *msgs;
 	int     nmsgs;
 	int     teardown;             /* root reached teardown: traffic oracles off */
+	uint64_t slow_stop_hook_ns;   /* the stop hook keeps its thread in the stopping state for this long */
 	int     msg_oracle;           /* C05 ledger violations are reported (only the C05 check) */
 } world;
 extern world W;
